@@ -413,6 +413,45 @@ fn huge_count<const D: usize>(ty: u8) {
     std::mem::forget((r, buf, v));
 }
 
+/// Declared counts around the integer boundaries: a concrete digit prefix (e.g. the first 17 digits of 2^63)
+/// followed by S symbolic digits, optional sign symbolic.  All-symbolic 19/20-digit counts are in the thorough
+/// tier (the 20-step symbolic multiply-add chain does not finish in the quick budget).
+pub fn count_boundary<const S: usize>(ty: u8, prefix: &[u8]) {
+    let tail: [u8; S] = kani::any();
+    let sign: u8 = kani::any();
+    kani::assume(sign == b'-' || sign == b'+' || sign == b'0');
+    let mut v: Vec<u8> = Vec::with_capacity(prefix.len() + S + 4);
+    v.push(ty);
+    v.push(sign);
+    let mut i = 0;
+    while i < prefix.len() {
+        v.push(prefix[i]);
+        i += 1;
+    }
+    let mut i = 0;
+    while i < S {
+        kani::assume(tail[i] >= b'0' && tail[i] <= b'9');
+        v.push(tail[i]);
+        i += 1;
+    }
+    v.push(b'\r');
+    v.push(b'\n');
+    let n = v.len();
+    set_layout(&[n - 3]);
+    let mut buf = BytesMut::from(&v[..]);
+    let r = RespValue::decode(&mut buf);
+    let c = classify(&r);
+    if c == 1 {
+        assert!(buf.len() == n, "C20 decoder consumed bytes although it asked for more data");
+    }
+    // a declared length that does not fit the machine word is malformed, never a (wrapped) smaller length
+    assert!(c != 0 || ty == b'*', "C21 an out-of-range bulk length was accepted as a value");
+    assert!(max_alloc() <= 64 + 40 * n, "C21 allocation larger than a small multiple of the bytes received");
+    vk_cover!(c == 2, "reach error");
+    vk_cover!(c == 1 || c == 2, "reach");
+    std::mem::forget((r, buf, v));
+}
+
 /// Nesting limit.  The decoder declares RespValue::MAX_DEPTH; unbounded recursion on a deep frame is a
 /// process abort (CBMC has no stack model, so the limit is what is checked):
 ///  * entering an array at depth MAX_DEPTH is refused;
